@@ -35,7 +35,7 @@ RULE = ('case = (state, area, function) with its perturbed twins. non-trivial = 
 ASSUMPTIONS = ['visibility read off the observation: a view cell is visible iff it is not Hidden']
 EXHAUSTIVE_NOTE = 'all opacity patterns (agent cell transparent) of 3x3 and 4x3 views with every single-cell flip, x 2 functions (thorough: 3x5 too)'
 REQUIRED = {'quick': {'ni.pairs': 20000, 'chain.checked': 5000, 'monotone.pairs': 3000, 'patterns': 2000,
-                      'stochastic.checked': 1000, 'stochastic.hidden_by_chance': 50, 'agent_cell.checked': 5000,
+                      'stochastic.checked': 1000, 'stochastic.extreme_outcomes': 100, 'stochastic.hidden_by_chance': 50, 'agent_cell.checked': 5000,
                       'ni.outside_view': 500, 'ni.hidden_in_view': 5000, 'history_states.compared': 200, 'views.large': 4, 'door_pairs.observations': 500}}
 OCCLUDING = ['partially_occluded', 'raytracing']
 N8 = [(-1, -1), (-1, 0), (-1, 1), (0, -1), (0, 1), (1, -1), (1, 0), (1, 1)]
@@ -229,6 +229,17 @@ def lit_counts(view_grid, position):
     return num, den
 
 
+class ExtremeRng:
+    """a generator whose uniform draws all take one value of [0, 1): the largest (just below 1) or the smallest positive one -
+    outcomes a seeded run practically never produces, but legal ones"""
+
+    def __init__(self, value):
+        self.value = value
+
+    def random(self, size=None, *a, **k):
+        return self.value if size is None else np.full(size, self.value)
+
+
 def stochastic(ctx, state, area, fns, seeds, rng):
     det = fns[('raytracing', area)]
     sto = fns[('stochastic_raytracing', area)]
@@ -242,11 +253,14 @@ def stochastic(ctx, state, area, fns, seeds, rng):
     gh = len(vis_det)
     gw = len(vis_det[0])
     inside = [[type(obs_full.grid.objects[i][j]) is not Hidden for j in range(gw)] for i in range(gh)]
-    for s in range(seeds):
-        seed = rng.randrange(2**32)
-        ok, obs = call_real(sto, state, rng=np.random.default_rng(seed))
+    for s in range(seeds + 2):
+        seed = rng.randrange(2**32) if s < seeds else ['largest_draw', 'smallest_positive_draw'][s - seeds]
+        g = np.random.default_rng(seed) if s < seeds else ExtremeRng([float(np.nextafter(1.0, 0.0)), float(np.nextafter(0.0, 1.0))][s - seeds])
+        ok, obs = call_real(sto, state, rng=g)
         ctx.ev()
         ctx.hit('stochastic.checked')
+        if s >= seeds:
+            ctx.hit('stochastic.extreme_outcomes')
         payload = {'state': enc.state_to_json(state), 'area': obsgen.area_json(area), 'fn': 'stochastic_raytracing', 'seed': seed}
         if not ok:
             ctx.violation('occlusion', 'obs.raises', f'stochastic_raytracing raised {describe_exc(obs)}', 'sto_case', payload)
@@ -384,7 +398,9 @@ def replay(ctx, kind, payload):
     area = obsgen.area_from_json(payload['area'])
     rng = gen.rng_for('replay')
     if kind == 'sto_case':
-        stochastic(ctx, state, area, fns, 1, gen.rng_for('x'))
+        stochastic(ctx, state, area, fns, 1, gen.rng_for('x'))  # includes the two extreme-outcome generators
+        if isinstance(payload['seed'], str):
+            return
         sto = fns[('stochastic_raytracing', area)]
         det = fns[('raytracing', area)]
         ok, obs = call_real(sto, state, rng=np.random.default_rng(payload['seed']))
